@@ -12,7 +12,19 @@ type Nodes []Node
 // fairly inexpensive it happens a lot and its common for the same paths to be
 // looked up many time. Especially when doing larger task like comparing GEDCOM
 // files.
-var nodeCache = &sync.Map{} // map[Node]map[Tag]Nodes{}
+//
+// The cache is replaced (rather than emptied) when it is invalidated. This can
+// happen while other goroutines are using it so it must always be accessed with
+// currentNodeCache.
+var nodeCache atomic.Value // *sync.Map of map[Node]map[Tag]Nodes{}
+
+func init() {
+	nodeCache.Store(&sync.Map{})
+}
+
+func currentNodeCache() *sync.Map {
+	return nodeCache.Load().(*sync.Map)
+}
 
 // cacheGeneration is increased every time a node or a document is modified. The
 // values that are cached on documents, individuals and families remember the
@@ -30,7 +42,7 @@ var cacheGeneration int64
 // connected through a family) which we have no easy way of doing right now.
 func invalidateCaches() {
 	atomic.AddInt64(&cacheGeneration, 1)
-	nodeCache = &sync.Map{}
+	nodeCache.Store(&sync.Map{})
 }
 
 func currentCacheGeneration() int64 {
@@ -51,17 +63,19 @@ func NewNodes(ns interface{}) (nodes Nodes) {
 //
 // If the node is nil the result will also be nil.
 func NodesWithTag(node Node, tag Tag) (result Nodes) {
-	if v1, ok1 := nodeCache.Load(node); ok1 {
+	cache := currentNodeCache()
+
+	if v1, ok1 := cache.Load(node); ok1 {
 		if v2, ok2 := v1.(*sync.Map).Load(tag); ok2 {
 			return v2.(Nodes)
 		}
 	}
 
 	defer func() {
-		if v1, ok := nodeCache.Load(node); ok {
+		if v1, ok := cache.Load(node); ok {
 			v1.(*sync.Map).Store(tag, result)
 		} else {
-			nodeCache.Store(node, &sync.Map{})
+			cache.Store(node, &sync.Map{})
 		}
 	}()
 
